@@ -13,6 +13,9 @@ Nothing in this file knows about quantem.  Every model states what the *library*
 
 What is trusted here (also listed in contracts/C08.py TRUSTED):
   * os.path.exists/isdir, os.remove, shutil.rmtree, os.makedirs, os.replace/rename: the obvious effects on one node;
+  * os.listdir/scandir(p): the listing of a directory - NENT0(p) >= 0 entries for an untouched directory (0 = an existing
+    EMPTY directory), 0 for a directory created during the call, >= 1 once zarr.group created a group in it; raises for a
+    missing name (also a dangling symbolic link) and for a file; os.path.islink / getsize read the old state;
     os.remove on a directory / rmtree on a file / makedirs over a file raise;
   * tempfile.TemporaryDirectory(): creates a directory at a FRESH path (did not exist, different from every path the
     program names that is not derived from it) and its context manager removes it on normal AND exceptional exit;
@@ -268,6 +271,13 @@ class GhostFS:
         # directory entry exists (lexists) and creating a file "at" the name creates it at the link's destination
         self.DANG0 = z3.Function("fs0_dangling_link", STR, BOOL)
         self.DEST0 = z3.Function("fs0_link_destination", STR, STR)
+        # a directory has a LISTING: NENT0(p) entries ENT0(p, 0..NENT0-1) (0 = an empty directory, e.g. one that was only
+        # pre-created with mkdir).  Only meaningful for names of kind DIR.  SIZE0: byte size of a name of kind FILE.
+        # LINK0: the directory entry itself is a symbolic link (dangling or not).
+        self.NENT0 = z3.Function("fs0_dir_entries", STR, INT)
+        self.ENT0 = z3.Function("fs0_dir_entry", STR, INT, STR)
+        self.SIZE0 = z3.Function("fs0_file_size", STR, INT)
+        self.LINK0 = z3.Function("fs0_is_symlink", STR, BOOL)
         self.log = []
         self.through = set()
 
@@ -287,6 +297,10 @@ class GhostFS:
         ctx.assume(z3.And(self.K0(p) >= 0, self.K0(p) <= 2, z3.Implies(self.L0(p), self.K0(p) != ABSENT)))
         d = self.DEST0(p)
         ctx.assume(z3.Implies(self.DANG0(p), z3.And(self.K0(p) == ABSENT, d != p, self.K0(d) == ABSENT, z3.Not(self.DANG0(d)), z3.Not(self.L0(d)))))
+        # listings: a directory has >= 0 entries; a directory that loads holds at least its root `zarr.json`; sizes are >= 0;
+        # a dangling link is a link
+        ctx.assume(z3.And(self.NENT0(p) >= 0, self.SIZE0(p) >= 0, z3.Implies(self.DANG0(p), self.LINK0(p)),
+                          z3.Implies(z3.And(self.K0(p) == DIR, self.L0(p)), self.NENT0(p) >= 1)))
         return p
 
     def dangling(self, q):
@@ -356,6 +370,27 @@ class GhostFS:
             raise OutOfSubset(f"node {node!r}")
 
         return z3.simplify(self.fold(q, k, self.K0(q)))
+
+    def nentries(self, q):
+        """Number of entries in the listing of the directory q NOW: 0 for a directory this call created and has not yet put a
+        zarr tree into, >= 1 (the root `zarr.json`) for a directory holding a group created through zarr.group, the old
+        count for an untouched directory.  (Meaningless - 0 - for names that are not directories.)"""
+        q = sterm(q)
+        ctx = self.w.ctx
+
+        def n(node):
+            if isinstance(node, DirNode):
+                if node.group is None:
+                    return z3.IntVal(0)
+                if getattr(node, "nent", None) is None:
+                    node.nent = z3.Int(ctx.fresh_name("group_dir_entries"))
+                    ctx.assume(node.nent >= 1)
+                return node.nent
+            if isinstance(node, Moved):
+                return self.NENT0(node.src)
+            return z3.IntVal(0)
+
+        return z3.simplify(self.fold(q, n, self.NENT0(q)))
 
     def untouched(self, q):
         """q still holds its old content (never written, or only written through path terms different from q)."""
@@ -826,6 +861,49 @@ def install(reg):
     M[os.path.isdir] = m_isdir
     M[os.path.isfile] = m_isfile
 
+    def m_islink(interp, p):
+        fs = _fs(interp)
+        p = fs.mention(p)
+        return Sym(z3.And(fs.untouched(p), fs.LINK0(p)))  # nothing modelled here creates a symbolic link
+
+    M[os.path.islink] = m_islink
+
+    def m_getsize(interp, p):
+        fs = _fs(interp)
+        p = fs.mention(p)
+        k = _kind_fork(interp, p)
+        if k == ABSENT:
+            raise RaiseSig(FileNotFoundError("getsize: no such file"))
+        if k == FILE and fs.pick(p) is None:
+            return Sym(fs.SIZE0(p))
+        n = z3.Int(interp.ctx.fresh_name("size"))  # a directory / a file written during this call: some size >= 0
+        interp.ctx.assume(n >= 0)
+        return Sym(n)
+
+    M[os.path.getsize] = m_getsize
+
+    def listing(interp, p, what):
+        """The listing of directory p (read-only): a list of `nentries(p)` names; raises for a missing name (also a dangling
+        link) and for a file."""
+        fs = _fs(interp)
+        p = fs.mention(p)
+        k = _kind_fork(interp, p)
+        if k == ABSENT:
+            raise RaiseSig(FileNotFoundError(f"{what}: no such directory"))
+        if k == FILE:
+            raise RaiseSig(NotADirectoryError(f"{what}: not a directory"))
+        n = fs.nentries(p)
+        if fs.pick(p) is None:
+            ent = lambda i: Sym(fs.ENT0(p, lift(i)))
+        else:
+            E = z3.Function(interp.ctx.fresh_name("dir_entry"), INT, STR)
+            ent = lambda i: Sym(E(lift(i)))
+        nv = z3.simplify(n)
+        return V.SymArr((nv.as_long() if z3.is_int_value(nv) else Sym(n),), ent, "str", pylist=True)
+
+    M[os.listdir] = lambda interp, p=".": listing(interp, p, "listdir")
+    M[os.scandir] = lambda interp, p=".": listing(interp, p, "scandir")  # only counted / tested for emptiness
+
     def m_join(interp, a, *rest):
         if not contains_sym((a, rest)):
             return interp.native(os.path.join, a, *rest)
@@ -1074,6 +1152,16 @@ def install(reg):
 
     M[zarr.group] = m_group
     M[zarr.open_group] = lambda interp, store=None, mode="a", **kw: m_group(interp, store, overwrite=(mode == "w"), **kw)
+
+    def m_delattr(interp, x, name):
+        if isinstance(x, V.Obj):
+            if name not in x.fields:
+                raise RaiseSig(AttributeError(name))
+            del x.fields[name]
+            return None
+        return interp.native(delattr, x, name)
+
+    M[delattr] = m_delattr
 
     def contains_attrs(interp, container, item):
         return Sym(container.has(item))
